@@ -62,7 +62,7 @@ type family struct{ Blocks, Depth int }
 
 func families(tier string) ([]family, []int) {
 	if tier == "thorough" {
-		return []family{{2, 11}, {3, 10}, {4, 9}}, []int{0, 1, 2}
+		return []family{{2, 12}, {3, 11}, {4, 9}}, []int{0, 1, 2}
 	}
 	return []family{{2, 9}, {3, 8}, {4, 6}}, []int{0, 1}
 }
